@@ -1015,3 +1015,89 @@ def c04(stream, scen):
 
 
 MONITORS['C04'] = [c04]
+
+
+# ------------------------------------------------------------------------------------------ C06
+def c06(stream, scen=None):
+    """every part accepted by a handler / processor leaves processing after exactly the cycle time in
+    effect at acceptance (one-shot offsets included, floored at 0) of OPERATIONAL time (maintenance
+    downtime added on top), unless a failure loses it; a sink accepts the next part no sooner than its
+    cycle time after the previous one."""
+    wit = []
+    cbs = {}
+    di = 0
+    for l in scen or []:
+        if l[:2] == ['asset', 'dev']:
+            kv = dict(t.split('=', 1) for t in l[3:] if '=' in t)
+            if 'recvcb' in kv:
+                cbs[di] = [c.split(':') for c in kv['recvcb'].split(',')]
+            di += 1
+        elif l[:2] == ['asset', 'group']:
+            di += 2
+    fs = frames(stream)
+    prev = None
+    cur = {}        # device -> [pid, expected cycle, work so far]
+    last_sink = {}
+    for i, f in enumerate(fs):
+        if f.trigger[0] == 'abort':
+            return wit
+        if f.now is None or f.trigger[0] in ('ran', 'runbegin'):
+            continue
+        devs = devs_of(f.state)
+        pd = devs_of(prev.state) if prev is not None else {}
+        dt = (f.now - prev.now) if prev is not None else 0
+        lost = {}
+        for rec in f.recs:
+            t = rec.split()
+            if t[0] == 'device_failure' and t[3] != '-':
+                lost[int(t[1])] = int(t[3])
+        for x, d in devs.items():
+            if d.kind not in ('handler', 'processor'):
+                continue
+            o = pd.get(x)
+            if x in cur and o is not None:
+                if o.f.get('down', '0') == '0' and o.slot('part') == cur[x][0]:
+                    cur[x][2] += dt
+            if x in cur and d.slot('part') != cur[x][0]:
+                pid, c, work = cur.pop(x)
+                if lost.get(x) == pid:
+                    pass
+                elif work != c:
+                    wit.append(f'frame {i} (t={f.now}): part {pid} left processing in device {x} after {work} of operational '
+                               f'time, cycle time in effect at acceptance was {c}')
+                elif d.slot('out') != pid and not any(r.startswith(f'received_part ') and r.split()[3] == str(pid) for r in f.recs):
+                    pass
+        for rec in f.recs:
+            t = rec.split()
+            if t[0] != 'received_part':
+                continue
+            x, pid = int(t[1]), int(t[3])
+            d = devs.get(x)
+            if d is None:
+                continue
+            if d.kind == 'sink':
+                c = int(pd[x].f.get('cyc', '0')) if x in pd else 0
+                if x in last_sink and f.now - last_sink[x][0] < last_sink[x][1]:
+                    wit.append(f'frame {i}: sink {x} accepted a part {f.now - last_sink[x][0]} after the previous one, cycle time {last_sink[x][1]}')
+                last_sink[x] = (f.now, int(d.f.get('cyc', '0')))
+            if d.kind in ('handler', 'processor'):
+                off = int(pd[x].f.get('off', '0')) if x in pd else 0
+                cyc = int(pd[x].f.get('cyc', '0')) if x in pd else int(d.f.get('cyc', '0'))
+                for cb in cbs.get(x, []):
+                    off += int(cb[1])
+                    if cb[0] != '-':
+                        cyc = int(cb[0])
+                c = max(0, cyc + off)
+                if d.slot('part') == pid:
+                    if x in cur:
+                        wit.append(f'frame {i}: device {x} accepted part {pid} while still processing {cur[x][0]}')
+                    cur[x] = [pid, c, 0]
+                elif c != 0 and lost.get(x) != pid:
+                    wit.append(f'frame {i}: part {pid} was accepted by device {x} and left processing in the same event, cycle time {c}')
+        prev = f
+        if len(wit) > 5:
+            break
+    return wit
+
+
+MONITORS['C06'] = [c06]
